@@ -10,7 +10,6 @@ import (
 	"fmt"
 	"io"
 	"math"
-	"math/rand"
 	"testing"
 	"time"
 
@@ -132,8 +131,8 @@ func TestFileRandom(t *testing.T) {
 				})
 			case 1, 2:
 				kind := rng.Intn(5)
-				if kind == 1 && !mutable {
-					kind = 0
+				if kind == 1 && len(m.frozen) > 0 {
+					kind = 0 // would wait for the frozen reader, by design
 				}
 				size := uint64(rng.Intn(60))
 				mk("VirtualSetAttributes", []string{"none", "size", "permissions", "uid", "gid"}[kind], func() string {
@@ -153,7 +152,7 @@ func TestFileRandom(t *testing.T) {
 					return st(leaf.VirtualSetAttributes(ctxBG, in, maskLocked, &out))
 				})
 			case 3:
-				if mutable {
+				if len(m.frozen) == 0 {
 					off, n := uint64(rng.Intn(50)), uint64(rng.Intn(30))
 					mk("VirtualAllocate", "", func() string {
 						e.faults.truncate.Store(fault)
@@ -681,5 +680,3 @@ func TestSectorAllocatorRandom(t *testing.T) {
 	}
 	common.WriteJSON("meta.json", map[string]any{"traces": traces, "calls": calls})
 }
-
-var _ = rand.Int
